@@ -47,6 +47,7 @@ func ruleC01(c *Ctx, r *Report) {
 	tablePolicyRule(c, r, "C01-R4")
 	lastKeyLookupRule(c, r, "C01-R4")
 	operatorMapDescentRule(c, r, "C01-R4")
+	lookupFaithfulRule(c, r, "C01-R4")
 	c01FlagWiring(c, r, an)
 	c01Remote(c, r, p)
 }
@@ -110,7 +111,13 @@ func c01Dispatch(c *Ctx, r *Report, p *Prov, zoneKeys []string, rule string) {
 		for _, a := range p.atomsAt(call.Block()) {
 			a := a
 			switch {
+			case allowedDispatchAtoms[a.Kind] && (a.Pol || a.Kind == "nil"):
 			case allowedDispatchAtoms[a.Kind]:
+				// a lookup that did NOT find, a type test that did NOT hold: the document is walked
+				// only on lines that lack some other member (a loop over the names that stops at
+				// the first one present, an else-if chain) - the error report that carries the
+				// command's name under one key and its copy under another skips the copy
+				bad = append(bad, "a failed lookup / type test of another member ("+a.String()+")")
 			case a.Kind == "strconst":
 				bad = append(bad, "conjunctive string test "+a.String())
 			case a.Kind == "or":
@@ -1152,4 +1159,120 @@ func allIn(xs, set []string) bool {
 		}
 	}
 	return true
+}
+
+// lookupFaithfulRule (C01-R4): the table lookup - the function that takes a key path and
+// answers (entry, found) - may only answer "found" with what the table holds at the END of the
+// path it was given: the value of the last member read (or the answer of a lookup it delegates
+// to). An answer made up inside the lookup (a classification constant, a package-level value),
+// or the value read at a proper prefix of the path returned from inside the path loop, gives a
+// position below a scalar table entry the classification of its ancestor: every operator the
+// tables do not know below a FieldName / Exempt / Namespace position inherits "keep as it is",
+// and its literal operands are emitted unredacted.
+func lookupFaithfulRule(c *Ctx, r *Report, rule string) {
+	p := c.prov()
+	n := 0
+	for _, f := range c.SortedFuncs() {
+		if !p.Zone[f] && !p.Scope[f] {
+			continue
+		}
+		res := f.Signature.Results()
+		if res.Len() != 2 || !isEmptyInterface(res.At(0).Type()) || !isBoolType(res.At(1).Type()) {
+			continue
+		}
+		var pathPrm, tablePrm *ssa.Parameter
+		for _, prm := range f.Params {
+			if isStringSliceT(prm.Type()) {
+				pathPrm = prm
+			}
+			if isOrderedMapPtr(prm.Type()) {
+				tablePrm = prm
+			}
+		}
+		if pathPrm == nil || tablePrm == nil {
+			continue
+		}
+		inLoop := map[*ssa.BasicBlock]bool{}
+		for _, l := range naturalLoops(f) {
+			for b := range l.Region() {
+				inLoop[b] = true
+			}
+		}
+		allInstrs(f, func(i ssa.Instruction) {
+			ret, ok := i.(*ssa.Return)
+			if !ok || len(ret.Results) != 2 {
+				return
+			}
+			if b, isC := constBool(ret.Results[1]); isC && !b {
+				return // "not found"
+			}
+			n++
+			construct := fmt.Sprintf("%s:found-answer#%d", f.Name(), n)
+			var problems []string
+			kinds := map[string]bool{}
+			for _, vs := range sourcesAt(ret.Results[0], ret.Block()) {
+				v := peel(vs.Val)
+				for {
+					switch x := v.(type) {
+					case *ssa.MakeInterface:
+						v = peel(x.X)
+						continue
+					case *ssa.ChangeInterface:
+						v = peel(x.X)
+						continue
+					}
+					break
+				}
+				if isNilConst(v) {
+					continue
+				}
+				if v == ssa.Value(tablePrm) {
+					kinds["the table itself (empty path)"] = true
+					continue
+				}
+				if ex, isEx := v.(*ssa.Extract); isEx && ex.Index == 0 {
+					if call, isCall := ex.Tuple.(*ssa.Call); isCall {
+						k := calleeKey(&call.Call)
+						if k == omMethod("Get") {
+							kinds["member read from the table"] = true
+							cutAtMap := false
+							for _, a := range p.atomsAt(ret.Block()) {
+								if a.Kind == "tbl" && a.Pol && a.Name == "OperatorMap" {
+									cutAtMap = true // the one position where the tables end a path early: a map of client-named members
+								}
+							}
+							if inLoop[ret.Block()] && !cutAtMap {
+								problems = append(problems, "the value read at a proper prefix of the path is returned from inside the path loop")
+							}
+							continue
+						}
+						if g := c.staticPkgCallee(&call.Call); g != nil {
+							gr := g.Signature.Results()
+							if gr.Len() == 2 && isEmptyInterface(gr.At(0).Type()) && isBoolType(gr.At(1).Type()) {
+								kinds["answer of the lookup it delegates to"] = true
+								continue
+							}
+						}
+					}
+				}
+				if cst, isConst := v.(*ssa.Const); isConst {
+					problems = append(problems, fmt.Sprintf("answers with the constant %s instead of the table's entry", cst.String()))
+					continue
+				}
+				problems = append(problems, fmt.Sprintf("answers with %s, which is not read from the table at the path", v.String()))
+			}
+			var ks []string
+			for k := range kinds {
+				ks = append(ks, k)
+			}
+			sort.Strings(ks)
+			r.Check(len(problems) == 0, rule, construct, c.InstrPos(ret),
+				"a found answer is "+strings.Join(ks, " / "),
+				"the table lookup makes up an answer: "+strings.Join(problems, "; ")+" - positions below a scalar table entry inherit its classification, so operators the tables do not list there are kept with their literal operands")
+		})
+	}
+	r.Analysed["lookup_found_answers"] = n
+	if n == 0 {
+		r.Undecided(rule, "lookup:found-answers", "-", "no table lookup function (key path, table) -> (entry, found) with a found answer")
+	}
 }
